@@ -320,7 +320,7 @@ var verPool = []string{"1.0.0", "1.2.3", "1.10.0", "1.9.0", "0.0.0", "0.0.1", "1
 var hugeVerPool = []string{"18446744073709551616.0.0", "1.18446744073709551616.0", "1.0.99999999999999999999"}
 
 var strPool = []string{"", "abc", "ABC", "aBc", "ab", "bc", "b", "a b", " abc", "abc ", "  ", "cde", "Straße", "STRASSE", "strasse", "İ", "i", "ǅ", "ǆ", "K", "k", "ſ", "s", "ς", "σ", "Σ",
-	"héllo", "HÉLLO", "日本語", "x", "X", "zz", "Zz", "1.0.0", "true", "null", "a.b", "[1]", "a,b", "(a)", "Ω", "ω", "Å", "å", "é", "É", "ab\tcd", "line\nbreak", "Ⱥ", "ⱥ", "ẞ", "ß"}
+	"héllo", "HÉLLO", "日本語", "x", "X", "zz", "Zz", "1.0.0", "true", "null", "a.b", "[1]", "a,b", "(a)", "Ω", "ω", "Å", "å", "é", "É", "ab\tcd", "line\nbreak", "Ⱥ", "ⱥ", "ẞ", "ß", "line1\r\nline2", "\r\n", "a\rb", "\n", "tab\there ", "Ω", "Å", "\u2028x", "nul\x00byte", "\x7f", "𝒳𝒴", "ＡＢ", "ǰ", "ŉ"}
 
 func quote(body string) string { return "\"" + body + "\"" }
 
@@ -516,6 +516,10 @@ func parseLongText(t string) (int64, bool) {
 	return v, err == nil
 }
 
+var specialFloats = []float64{math.NaN(), math.Inf(1), math.Inf(-1), 0, math.Copysign(0, -1), math.MaxFloat64, -math.MaxFloat64, math.SmallestNonzeroFloat64,
+	9223372036854775808.0, -9223372036854775808.0, 9223372036854774784.0, 18446744073709551616.0, 9007199254740992.0, 9007199254740994.0, -9007199254740992.0,
+	4294967296.0, 2147483648.0, -2147483649.0, 1e19, -1e19, 1e300, 0.1, 0.5, 1e-300}
+
 var semverNear = []string{"1.0", "v1.0.0", "1.0.0.", "01.0.0", "1.00.0", "1.0.0-", "1.0.0-01", " 1.0.0", "1.0.0 ", "1.0.0-a..b", "1.0.0+", "1.0.0+a+b", "", "1", "1.0.0.0", "a.b.c", "1.0.0-é", "-1.0.0", "+1.0.0", "1..0",
 	"18446744073709551616.0.0", "1.0.0-18446744073709551616"}
 var semverSuffix = []string{"", "-beta", "-beta.2", "-alpha.1", "-1", "-0", "-rc.1+build.5", "+build", "+b.1.2", "-alpha.beta", "-alpha-x", "-10", "-2", "-a", "-A", "-beta.11", "-beta.2.1"}
@@ -578,7 +582,7 @@ func nearValue(r *RNG, leaf *Node, idc *int) *AV {
 		case 7:
 			return avFloat(float64(n) + pick(r, []float64{0.5, -0.5, 0.25, 0.7, -0.3, 1e-9}))
 		case 8:
-			return avFloat(pick(r, []float64{math.NaN(), math.Inf(1), math.Inf(-1), math.Copysign(0, -1), math.MaxFloat64, math.SmallestNonzeroFloat64}))
+			return avFloat(pick(r, specialFloats))
 		case 9:
 			return avFloat(math.Nextafter(float64(n), math.Inf(r.Intn(2)*2-1)))
 		default:
@@ -604,7 +608,7 @@ func nearValue(r *RNG, leaf *Node, idc *int) *AV {
 			}
 			return avFloat(-v)
 		case 7:
-			return avFloat(pick(r, []float64{math.NaN(), math.Inf(1), math.Inf(-1), 0, math.Copysign(0, -1)}))
+			return avFloat(pick(r, specialFloats))
 		case 8:
 			return avFloat(v + pick(r, []float64{1, -1, 0.5}))
 		default:
